@@ -11,6 +11,7 @@ order (the lane compares them as multisets with what was asked).
 import Ldap3V.Lemmas.RequestsBytes
 import Ldap3V.Lemmas.RequestsHandle
 import Ldap3V.Props.C07
+import Ldap3V.Lemmas.FilterShape
 namespace Ldap3V
 open Spec
 
@@ -107,6 +108,63 @@ theorem C02_every_sent_message (calls : List HandleCall) (m : Sent) (hm : m ∈ 
   obtain ⟨h1, h2⟩ := expectedFrom_sound _ _ _ _ m hm
   exact C02_roundtrip_bytes m.id m.req m.ctrls ⟨h2, hid⟩ ⟨h1, hr⟩ hf hl
 
+/-! ### the filter element as the filter parser produces it (C08) -/
+
+/-- `FilterOk` is true of whatever `parse_filter` accepts, provided the string does not nest parentheses
+deeper than 60 (61 when it starts with `(`, i.e. is not a bare item): low tag numbers hold for EVERY accepted
+string, and the tree is at most two levels (one level) deeper than the string nests (`C08_output_shape`;
+`Filter.nest 0 s` is the greatest parenthesis depth reached in `s`).  No size bound is needed here; the
+size of the whole message is the separate hypothesis `hl` of `C02_roundtrip_bytes`. -/
+theorem C02_parsed_filter_ok (s : Bytes) (t : Tag) (h : Filter.parse s = some t)
+    (hn : Filter.nest 0 s ≤ 60 ∨ (s.head? = some 0x28 ∧ Filter.nest 0 s ≤ 61))
+    (base : Bytes) (scope : Scope) (deref : Deref) (sizeLimit timeLimit : Int) (typesOnly : Bool)
+    (attrs : List Bytes) :
+    FilterOk (.search base scope deref sizeLimit timeLimit typesOnly t.toTlv attrs) := by
+  obtain ⟨h1, _, h3, _, h5, _⟩ := Filter.parse_shape h
+  refine ⟨h1, ?_⟩
+  rcases hn with hn | ⟨hh, hn⟩
+  · omega
+  · have := h5 hh; omega
+
+/-- `C02_roundtrip_bytes` for a Search whose filter came out of the filter parser: `FilterOk` discharged. -/
+theorem C02_roundtrip_bytes_parsed (id : Nat) (s : Bytes) (t : Tag) (h : Filter.parse s = some t)
+    (hn : Filter.nest 0 s ≤ 60 ∨ (s.head? = some 0x28 ∧ Filter.nest 0 s ≤ 61))
+    (base : Bytes) (scope : Scope) (deref : Deref) (sizeLimit timeLimit : Int) (typesOnly : Bool)
+    (attrs : List Bytes) (cs : Option (List RawControl))
+    (hid : 1 ≤ id ∧ id < 2147483648) (hr : I32 sizeLimit ∧ I32 timeLimit)
+    (hl : (encodeMsg (id : Int) (build (.search base scope deref sizeLimit timeLimit typesOnly t.toTlv attrs)) cs).length
+      < 18446744073709551616) :
+    ∃ tr, parseTag (encodeMsg (id : Int) (build (.search base scope deref sizeLimit timeLimit typesOnly t.toTlv attrs)) cs)
+        = .ok tr [] ∧
+      decodeRequest tr = some (id, .search base scope deref sizeLimit timeLimit typesOnly t.toTlv attrs, cs) :=
+  C02_roundtrip_bytes id _ cs hid ⟨rfl, hr⟩
+    (C02_parsed_filter_ok s t h hn base scope deref sizeLimit timeLimit typesOnly attrs) hl
+
+/-- `C02_every_sent_message` for a Search whose filter came out of the filter parser -/
+theorem C02_every_sent_message_parsed (calls : List HandleCall) (m : Sent) (hm : m ∈ (runHandle calls).wire)
+    (s : Bytes) (t : Tag) (h : Filter.parse s = some t)
+    (hn : Filter.nest 0 s ≤ 60 ∨ (s.head? = some 0x28 ∧ Filter.nest 0 s ≤ 61))
+    (base : Bytes) (scope : Scope) (deref : Deref) (sizeLimit timeLimit : Int) (typesOnly : Bool)
+    (attrs : List Bytes) (hreq : m.req = .search base scope deref sizeLimit timeLimit typesOnly t.toTlv attrs)
+    (hr : InRange m.req) (hid : m.id < 2147483648) (hl : m.bytes.length < 18446744073709551616) :
+    ∃ tr, parseTag m.bytes = .ok tr [] ∧ decodeRequest tr = some (m.id, m.req, m.ctrls) :=
+  C02_every_sent_message calls m hm hr
+    (by rw [hreq]; exact C02_parsed_filter_ok s t h hn base scope deref sizeLimit timeLimit typesOnly attrs) hid hl
+
+/-- The depth side condition is not an artefact: `parse_filter` has no depth limit (`C08_any_depth_accepted`),
+lber's parser has (`maxDepth` = 64, two of which are LDAPMessage and SearchRequest).  A Search whose filter
+string nests deeper than 63 is WRITTEN, and the library's own parser answers `error` on the message. -/
+theorem C02_deep_filter_not_read_back (id : Nat) (s : Bytes) (t : Tag) (h : Filter.parse s = some t)
+    (hn : 63 < Filter.nest 0 s)
+    (base : Bytes) (scope : Scope) (deref : Deref) (sizeLimit timeLimit : Int) (typesOnly : Bool)
+    (attrs : List Bytes) (cs : Option (List RawControl))
+    (hl : (encodeMsg (id : Int) (build (.search base scope deref sizeLimit timeLimit typesOnly t.toTlv attrs)) cs).length
+      < 18446744073709551616) :
+    parseTag (encodeMsg (id : Int) (build (.search base scope deref sizeLimit timeLimit typesOnly t.toTlv attrs)) cs)
+      = .error := by
+  obtain ⟨h1, _, _, h4, _⟩ := Filter.parse_shape h
+  exact search_deep_not_read_back id base scope deref sizeLimit timeLimit typesOnly _ attrs cs h1 (by omega) hl
+
 /-! ### non-vacuity (tests, labelled as such) -/
 
 /-- a search with negative size limit, 2^31-1 time limit, an AND filter and two attributes -/
@@ -138,5 +196,13 @@ example : NoNamelessExop [.withControls 0 [⟨[0x31], true, none⟩], .withTimeo
     (runHandle [.withControls 0 [⟨[0x31], true, none⟩], .withTimeout 0 10,
       .op 0 (.add [0x78] [([0x61], [])]), .op 0 (.delete [0x78])]).wire.map (fun m => (m.id, m.ctrls, m.timeout)) =
       [(1, none, none)] := by decide
+
+/-- `(&(cn=*)(a=b))` is accepted and nests 2 deep; `(a=b)` under 63 negations is accepted and nests 64 deep -/
+example : (Filter.parse [0x28, 0x26, 0x28, 0x63, 0x6e, 0x3d, 0x2a, 0x29, 0x28, 0x61, 0x3d, 0x62, 0x29, 0x29]).isSome = true ∧
+    Filter.nest 0 [0x28, 0x26, 0x28, 0x63, 0x6e, 0x3d, 0x2a, 0x29, 0x28, 0x61, 0x3d, 0x62, 0x29, 0x29] ≤ 60 := by decide
+example : (∃ t, Filter.parse (Filter.notStr 63 [0x28, 0x61, 0x3D, 0x62, 0x29]) = some t) ∧
+    63 < Filter.nest 0 (Filter.notStr 63 [0x28, 0x61, 0x3D, 0x62, 0x29]) := by
+  obtain ⟨t, h, _⟩ := Filter.parse_notN 63
+  exact ⟨⟨t, h⟩, by rw [Filter.nest_notStr]; decide⟩
 
 end Ldap3V
